@@ -193,7 +193,9 @@ PopNone(r) == pc[r] = "pop" /\ TW!HeapOf(r) = {} /\ Goto(r, "idle", NoLoc) /\ UN
 RECURSIVE MS(_, _, _)
 MS(p, m, i) == IF i = 0 THEN 0
                ELSE LET e == hist[p][i] IN  \* C index i-1
-                    IF e.k # "e" \/ Before(EvOf(m), [t |-> e.t, ty |-> e.ty, pid |-> e.pid]) THEN MS(p, m, i - 1) ELSE i
+                    \* (msg_is_before looks at the cancellation flag first: an entry cancelled in place by its sender stops the scan at equal timestamps)
+                    IF e.k # "e" \/ (Before(EvOf(m), [t |-> e.t, ty |-> e.ty, pid |-> e.pid]) /\ ~(msg[m].t = e.t /\ TW!HasAnti(msg[e.m].flags)))
+                    THEN MS(p, m, i - 1) ELSE i
 MatchStraggler(p, m) == MS(p, m, Len(hist[p]) - 1)
 RECURSIVE MA(_, _)
 MA(p, i) == IF i = 0 THEN 0 ELSE IF hist[p][i].k = "e" THEN i ELSE MA(p, i - 1)
